@@ -247,6 +247,7 @@ func c08(r *core.Run) {
 	c08Configured(r)
 	c08Needle(r)
 	c08Prefilter(r)
+	c08OncePerItem(r)
 }
 
 func c08Veto(r *core.Run) {
@@ -1738,4 +1739,78 @@ func c08Prefilter(r *core.Run) {
 		}
 	}
 	r.Floor("C08.PREFILTER", "entropy pre-filters of the embedded store", n, 1)
+}
+
+// c08OncePerItem: a score of the form len(matched)/len(required) lies in [0,1] only if every required item puts at
+// most ONE element into `matched`. Where the element is appended inside a search loop nested in the loop over the
+// required items, the search loop is left right after the append (break / found flag): no path leads from the append
+// back to the inner loop's header without passing the outer loop's header first.
+func c08OncePerItem(r *core.Run) {
+	p := r.P
+	r.Explain += " (ONCE) in the requirement matchers a required item contributes at most one element to the list whose length is the score's numerator."
+	n := 0
+	for _, fn := range p.FuncsIn("pkg/detection") {
+		// numerators: x in float(len(x)) / float(len(y)) among the function's values
+		nums := map[string]bool{}
+		core.InstrsOf(fn, func(in ssa.Instruction) {
+			if b, ok := in.(*ssa.BinOp); ok && b.Op == token.QUO && isLenConv(b.X) && isLenConv(b.Y) {
+				for _, o := range core.Origins(lenArg(b.X)) {
+					nums[fmt.Sprintf("%p", o)] = true
+				}
+				nums[fmt.Sprintf("%p", lenArg(b.X))] = true
+			}
+		})
+		if len(nums) == 0 {
+			continue
+		}
+		core.InstrsOf(fn, func(in ssa.Instruction) {
+			ap, ok := isBuiltinCall(valueOf(in), "append")
+			if !ok {
+				return
+			}
+			// does this append feed a numerator? (it is one of its origins, through the loop phis)
+			feeds := nums[fmt.Sprintf("%p", ssa.Value(ap))]
+			if !feeds {
+				return
+			}
+			// the innermost loop whose header dominates the append (the append may sit on the loop's way out)
+			var h *ssa.BasicBlock
+			for d := ap.Block(); d != nil && h == nil; d = d.Idom() {
+				for _, pr := range d.Preds {
+					if d.Dominates(pr) {
+						h = d
+					}
+				}
+			}
+			if h == nil {
+				return
+			}
+			ho := outerLoopHeader(h)
+			if ho == nil {
+				return // a single loop over the required items: one element per iteration by construction
+			}
+			n++
+			cut := map[core.Edge]bool{}
+			for _, pb := range ho.Preds {
+				for i, sb := range pb.Succs {
+					if sb == ho {
+						cut[core.Edge{From: pb, Idx: i}] = true
+					}
+				}
+			}
+			var wit []int
+			for si, sb := range ap.Block().Succs {
+				if cut[core.Edge{From: ap.Block(), Idx: si}] {
+					continue // straight on to the next required item
+				}
+				if sb == h {
+					wit = []int{ap.Block().Index, h.Index}
+				} else if pth := core.PathAvoiding(sb, h, cut); pth != nil && wit == nil {
+					wit = append([]int{ap.Block().Index}, pth...)
+				}
+			}
+			r.Check(wit == nil, "C08.RANGE", core.FuncName(fn)+"#one-element-per-required-item", ap.Pos(), "the search loop is left after the element was appended", "after the append the search loop goes on ("+core.FmtPath(wit)+"): one required item is counted once per place it is found in, the score len(matched)/len(required) exceeds 1 and the confidence leaves [0,1]")
+		})
+	}
+	r.Floor("C08.RANGE", "appends to a score numerator inside a search loop", n, 1)
 }
